@@ -7,6 +7,10 @@ declare -A EXTRA=( [C01a]=C07 [C01c]=C06 [C02a]=C08 [C02b]=C08 [C02c]=C08 [C03a]
                    [C06c]=C12 [C07a]=C01 [C08a]=C02 [C08b]=C02 [C10a]=C17 [C11c]=C18 [C12c]=C06 [C17a]="C08 C02" [C18c]=C16 )
 IDS=("$@"); [ ${#IDS[@]} -eq 0 ] && IDS=($(ls seeded | grep '^C[0-9][0-9][a-z]$'))
 LOG=/tmp/final_matrix.$$.log; : > "$LOG"
+# run from a frozen copy of the machinery, so that /verif may be edited while the matrix runs
+export VERIF_SNAPSHOT=/tmp/mw/snapshot
+rm -rf "$VERIF_SNAPSHOT"; mkdir -p "$VERIF_SNAPSHOT"
+rsync -a --exclude .target --exclude .git --exclude evidence --exclude replays --exclude seeded /verif/ "$VERIF_SNAPSHOT"/
 for ID in "${IDS[@]}"; do
   OWN=${ID:0:3}
   tools/mutant_run.sh "$ID" quick $OWN ${EXTRA[$ID]:-} >> "$LOG" 2>&1
@@ -34,4 +38,4 @@ with open(path, "w") as f:
         f.write("\t".join(rows[k]) + "\n")
 print(open(path).read())
 PY
-rm -f "$LOG"
+rm -f "$LOG"; rm -rf "$VERIF_SNAPSHOT"
